@@ -110,6 +110,36 @@ def setter_orders(kind, dim, subset, steps=2):
     return h
 
 
+class SequencedDraws(object):
+    """concrete draws that differ from call to call (so that consuming them in another order changes who gets what)"""
+    VALUES = (0.95, 0.2, 0.6, 0.05, 0.8, 0.4)
+
+    def __init__(self):
+        self.k = 0
+
+    def random(self):
+        self.k += 1
+        return self.VALUES[self.k % len(self.VALUES)]
+
+    def randrange(self, n):
+        self.k += 1
+        return self.k % n
+
+
+def seq_strategy(name, draws):
+    import mystic.strategy as st
+    real = getattr(st, name)
+
+    def strategy(inst, candidate):
+        stubs.ORACLE.override = draws
+        try:
+            return real(inst, candidate)
+        finally:
+            stubs.ORACLE.override = None
+    strategy.__name__ = name
+    return strategy
+
+
 def map_orders(dim, perm, interleave, cfg):
     """DE2 under a map that evaluates the work items in the order `perm` (results returned in input order)"""
     def h(ctx):
@@ -140,9 +170,10 @@ def map_orders(dim, perm, interleave, cfg):
             for i in range(s.nPop):
                 s.population[i] = [x0[j] + i for j in range(dim)]
             stubs.ORACLE.tape, stubs.ORACLE.replay, stubs.ORACLE.replay_mismatch = tape, replay, False
+            draws = SequencedDraws()
             try:
-                for g in range(3):
-                    s.Step(strategy=S.focus_strategy('Best1Bin', -1))
+                for g in range(2):
+                    s.Step(strategy=seq_strategy('Best1Bin', draws))
             finally:
                 stubs.ORACLE.tape, stubs.ORACLE.replay = None, None
             pop, en, b, be = L.state_of(s)
